@@ -7,7 +7,7 @@ argv[1] = job file {"out": path, "items": [{"ver", "s"}]}"""
 from __future__ import print_function, unicode_literals
 import sys, json, io
 from cvss import CVSS2, CVSS3, CVSS4
-from obs import esc, unesc, tenth
+from obs import esc, unesc, tenth, hb_iter
 
 CLS = {"2": CVSS2, "3": CVSS3, "4": CVSS4}
 STEPS = ("parse_vector", "check_mandatory", "handle_scope", "add_missing_optional", "compute_base_score",
@@ -74,7 +74,7 @@ def trace_one(ver, s):
 def main():
     job = json.load(io.open(sys.argv[1], encoding="utf-8"))
     res = []
-    for it in job["items"]:
+    for it in hb_iter(job["items"]):
         ev, out = trace_one(it["ver"], unesc(it["s"]))
         res.append({"ver": it["ver"], "s": it["s"], "steps": ev, "out": out})
     data = json.dumps(res, separators=(",", ":"), ensure_ascii=True)
